@@ -360,5 +360,7 @@ def shrink_common(scen):
         yield variant_of(scen, lenient=False)
     if scen.get('pad', '3CJ') != '3CJ':
         yield variant_of(scen, pad='3CJ')
+    if scen.get('device_id', '28e9:0189') != '28e9:0189':
+        yield variant_of(scen, device_id='28e9:0189')
     if scen.get('knobs'):
         yield variant_of(scen, knobs={})
